@@ -44,3 +44,127 @@ let revent_line (e : revent) : string =
    | REndDoc -> Buffer.add_string b "Z"
    | RError -> Buffer.add_string b "X");
   Buffer.contents b
+
+(* ------------------------------------------------------------------ reflection database: Dbmodel -> Model
+   The database is extracted into its own unit (dbmodel.ml) with its own copies of the datatypes; this is a
+   field-by-field copy into Model's types.  Default values and enums are not copied: the XML codec model reads
+   neither (cd_defaults = [], db_enums = []). *)
+module D = Dbmodel
+let rec conv_pos = function D.XH -> XH | D.XO p -> XO (conv_pos p) | D.XI p -> XI (conv_pos p)
+let conv_n = function D.N0 -> N0 | D.Npos p -> Npos (conv_pos p)
+let conv_ascii (D.Ascii (a, b, c, d, e, f, g, h)) = Ascii (a, b, c, d, e, f, g, h)
+let rec conv_string = function D.EmptyString -> EmptyString | D.String (a, r) -> String (conv_ascii a, conv_string r)
+let conv_dtype = function D.DValue n -> DValue (conv_n n) | D.DEnum s -> DEnum (conv_string s)
+let conv_migop = function D.MigInset -> MigInset | D.MigFont -> MigFont | D.MigBrick -> MigBrick | D.MigContent -> MigContent
+let conv_pser = function
+  | D.PSerializes -> PSerializes | D.PDoesNot -> PDoesNot | D.PSerAs s -> PSerAs (conv_string s)
+  | D.PMigrate (s, o) -> PMigrate (conv_string s, conv_migop o)
+let conv_pkind = function D.KCanon s -> KCanon (conv_pser s) | D.KAlias s -> KAlias (conv_string s)
+let conv_pdesc (p : D.pdesc) : pdesc = { pd_name = conv_string p.D.pd_name; pd_type = conv_dtype p.D.pd_type; pd_kind = conv_pkind p.D.pd_kind }
+let conv_cdesc (c : D.cdesc) : cdesc =
+  { cd_name = conv_string c.D.cd_name; cd_super = (match c.D.cd_super with Some s -> Some (conv_string s) | None -> None);
+    cd_service = c.D.cd_service; cd_props = List.map conv_pdesc c.D.cd_props; cd_defaults = [] }
+let model_db : db Lazy.t = lazy { db_classes = List.map conv_cdesc D.database.D.db_classes; db_enums = [] }
+
+(* ------------------------------------------------------------------ forest cases (notes/forest-format.md) -> Model.cdom *)
+type xcase = {
+  mutable opts : (string * string) list;
+  mutable nodes : inst0 list;            (* reversed while parsing *)
+  mutable roots : n list;
+  mutable sstr : (n list * n list) list;
+  mutable revs : revent list;            (* reversed while parsing *)
+  s32 : (string, n list) Hashtbl.t; s64 : (string, n list) Hashtbl.t;
+  p32 : (string, n option) Hashtbl.t; p64 : (string, n option) Hashtbl.t;
+  q : (string, n) Hashtbl.t; u : (string, n) Hashtbl.t;
+}
+
+let strip pre l =
+  let k = String.length pre in
+  if String.length l >= k && String.sub l 0 k = pre then Some (String.sub l k (String.length l - k)) else None
+
+let parse_case (lines : string list) (prefix : string) : xcase =
+  let c = { opts = []; nodes = []; roots = []; sstr = []; revs = [];
+            s32 = Hashtbl.create 64; s64 = Hashtbl.create 64; p32 = Hashtbl.create 64; p64 = Hashtbl.create 64;
+            q = Hashtbl.create 64; u = Hashtbl.create 16 } in
+  List.iter (fun l0 ->
+    let l = match (if prefix = "" then Some l0 else strip prefix l0) with Some l -> l | None -> "" in
+    let t = toks_of_line l in
+    if Array.length t.v > 0 then
+      match word t with
+      | "opt" -> let k = word t in c.opts <- (k, (if t.i < Array.length t.v then word t else "")) :: c.opts
+      | "sstr" -> let content = tbytes t in let h = tbytes t in c.sstr <- (content, h) :: c.sstr
+      | "node" ->
+        let label = tn t in let parent = tn t in let cls = tbytes t in let name = tbytes t in
+        c.nodes <- { i_ref = label; i_parent0 = parent; i_class0 = cls; i_name0 = name; i_props0 = [] } :: c.nodes
+      | "prop" ->
+        let name = tbytes t in let v = parse_value t in
+        (match c.nodes with
+         | i :: r -> c.nodes <- { i with i_props0 = i.i_props0 @ [(name, v)] } :: r
+         | [] -> failwith "prop before node")
+      | "roots" -> while t.i < Array.length t.v do c.roots <- c.roots @ [tn t] done
+      | "rev" -> c.revs <- parse_revent (String.sub l 4 (String.length l - 4)) :: c.revs
+      | "t" ->
+        (match word t with
+         | "s32" -> let k = word t in Hashtbl.replace c.s32 k (tbytes t)
+         | "s64" -> let k = word t in Hashtbl.replace c.s64 k (tbytes t)
+         | "p32" -> let k = word t in let v = word t in Hashtbl.replace c.p32 k (if v = "E" then None else Some (n_of_hex v))
+         | "p64" -> let k = word t in let v = word t in Hashtbl.replace c.p64 k (if v = "E" then None else Some (n_of_hex v))
+         | "q" -> let k = word t in Hashtbl.replace c.q k (tn t)
+         | "u" -> let k = word t in Hashtbl.replace c.u k (tn t)
+         | _ -> ())
+      | _ -> ()) lines;
+  c.nodes <- List.rev c.nodes; c.revs <- List.rev c.revs; c.opts <- List.rev c.opts;
+  c
+
+let opt c k d = match List.assoc_opt k c.opts with Some v -> v | None -> d
+
+let oracle_of (c : xcase) : xoracle =
+  let key_n x = hex_of_n x and key_b b = hex_of_bytes b in
+  { xo_show32 = (fun x -> Hashtbl.find_opt c.s32 (key_n x));
+    xo_show64 = (fun x -> Hashtbl.find_opt c.s64 (key_n x));
+    xo_parse32 = (fun b -> Hashtbl.find_opt c.p32 (key_b b));
+    xo_parse64 = (fun b -> Hashtbl.find_opt c.p64 (key_b b));
+    xo_quant = (fun x -> Hashtbl.find_opt c.q (key_n x));
+    xo_unit = (fun x -> Hashtbl.find_opt c.u (key_n x)) }
+
+let env_of (c : xcase) : xenv =
+  { xe_db = Lazy.force model_db; xe_font = font_migration_table; xe_brick = brick_color_table; xe_o = oracle_of c;
+    xe_hash = (fun content -> List.assoc_opt content c.sstr) }
+
+let ebeh = function "WriteUnknown" -> EWriteUnknown | "ErrorOnUnknown" -> EErrorOnUnknown | "NoReflection" -> ENoReflection | _ -> EIgnoreUnknown
+let dbeh = function "ReadUnknown" -> DReadUnknown | "ErrorOnUnknown" -> DErrorOnUnknown | "NoReflection" -> DNoReflection | _ -> DIgnoreUnknown
+
+let int_of_n' = int_of_n
+
+let err_class (code : n) : string =
+  match int_of_n' code with
+  | 100 -> "xml" | 101 -> "float" | 102 -> "int" | 103 -> "base64" | 104 -> "migration" | 105 -> "type" | 106 -> "version"
+  | 107 -> "eof" | 108 -> "event" | 109 -> "attr" | 110 -> "unknown" | 111 -> "content" | 112 -> "name" | 113 -> "convert"
+  | 120 -> "unknown" | 121 -> "type" | 122 -> "convert" | 123 -> "attr" | 99 -> "TABLE-MISS" | 90 -> "channel"
+  | k -> Printf.sprintf "code%d" k
+
+(* decoded-DOM observation: labels renumbered in depth-first pre-order from 1, props sorted by name (byte order),
+   Refs printed as the new label of the instance they name (0 if none) *)
+let print_dom (oc : out_channel) (d : inst0 list) : unit =
+  let kids = Hashtbl.create 64 in
+  List.iter (fun i -> let p = int_of_n i.i_parent0 in
+              Hashtbl.replace kids p ((try Hashtbl.find kids p with Not_found -> []) @ [i])) d;
+  let order = ref [] in
+  let rec walk p = List.iter (fun i -> order := i :: !order; walk (int_of_n i.i_ref)) (try Hashtbl.find kids p with Not_found -> []) in
+  walk 0;
+  let order = List.rev !order in
+  let relabel = Hashtbl.create 64 in
+  List.iteri (fun k i -> Hashtbl.replace relabel (int_of_n i.i_ref) (k + 1)) order;
+  let lab x = try Hashtbl.find relabel (int_of_n x) with Not_found -> 0 in
+  let map_ref v = match v with
+    | VRef r -> VRef (n_of_int (lab r))
+    | VContent (CObject r) -> VContent (CObject (n_of_int (lab r)))
+    | v -> v in
+  let cmp_bytes a b = compare (List.map int_of_n a) (List.map int_of_n b) in
+  List.iter (fun i ->
+    let props = List.sort (fun (a, _) (b, _) -> cmp_bytes a b) i.i_props0 in
+    Printf.fprintf oc "node %x %x %s %s %x\n" (lab i.i_ref) (lab i.i_parent0) (hex_of_bytes i.i_class0) (hex_of_bytes i.i_name0) (List.length props);
+    List.iter (fun (k, v) ->
+      let b = Buffer.create 64 in
+      Buffer.add_string b "prop "; add_hex_of_bytes b k; Buffer.add_char b ' '; print_value b (map_ref v);
+      output_string oc (Buffer.contents b ^ "\n")) props) order
